@@ -1,6 +1,7 @@
 import SodiumModel.Driver.Common
 import SodiumModel.Model.SignOps
 import SodiumModel.Model.Ge25519Ref10
+import SodiumModel.Model.Ed25519Full
 import SodiumModel.Spec.Sha512
 import SodiumModel.Spec.Ed25519
 import SodiumModel.Spec.Scalar25519
@@ -17,26 +18,37 @@ import SodiumModel.Spec.Scalar25519
 namespace Sodium.Driver.C06
 open Sodium Sodium.Driver Sodium.Model.Sign
 
-/-- the primitives the driver runs the sign/verify model with -/
-abbrev ops := Sodium.Model.Ge25519.refOps
+/-- the primitives the driver runs the combined-mode / `ph` wrappers with: the ASSEMBLED C-structured models
+    (`Model/Ed25519Full.lean`: SHA-512 over `SHA512_Transform`, the `sc25519_reduce` / `sc25519_muladd` limb code,
+    the ge25519 code over the specification field) -/
+abbrev ops := Sodium.Model.Ed25519Full.fullOps
+
+/-- every key pair / detached signature / verification is ALSO computed by the statement-order end-to-end model of
+    `Model/Ed25519Full.lean` (streaming hash calls as in the C code); a disagreement with the `Model.Sign` functions
+    over `fullOps` is reported as MODEL-DISAGREE -/
+def dis (b : Bool) : String := if b then "MODEL-DISAGREE " else ""
 
 def rcStr (r : Int32) : String := toString r.toInt
 
 def handle (op : String) (args : List String) : Option String :=
   match op, args with
   | "sign.seed_keypair", [seed] => do
-    let (pk, sk) := Model.Sign.seed_keypair ops (← ofHex seed)
-    some s!"{toHex pk} {toHex sk}"
+    let seed ← ofHex seed
+    let (pk, sk) := Model.Ed25519Full.crypto_sign_ed25519_seed_keypair seed
+    let (pk', sk') := Model.Sign.seed_keypair ops seed
+    some s!"{dis (pk != pk' || sk != sk')}{toHex pk} {toHex sk}"
   | "sign.detached", [m, sk] => do
     -- the harness compares crypto_sign_detached with crypto_sign itself (FORMS-DIFFER); so does the model
     let m ← ofHex m; let sk ← ofHex sk
     let d := Model.Sign.crypto_sign_detached ops m sk
     let s := Model.Sign.crypto_sign ops m sk
     let bad := d.siglen != 64 || s.smlen != m.length + 64 || s.sm != d.sig ++ m || s.rc != 0
-    some s!"{if bad then "FORMS-DIFFER " else ""}{toHex d.sig}"
+    let full := Model.Ed25519Full.crypto_sign_ed25519_detached m sk
+    some s!"{dis (full != d.sig)}{if bad then "FORMS-DIFFER " else ""}{toHex full}"
   | "sign.verify", [sig, m, pk] => do
     let sig ← ofHex sig; let m ← ofHex m; let pk ← ofHex pk
-    let rc := Model.Sign.crypto_sign_verify_detached ops sig m pk
+    let rc := Model.Ed25519Full.crypto_sign_ed25519_verify_detached sig m pk
+    let f0 := dis (rc != Model.Sign.crypto_sign_verify_detached ops sig m pk)
     -- the harness also runs crypto_sign_open on sig ‖ m and reports disagreements; mirror it
     let o := Model.Sign.crypto_sign_open ops (some (List.replicate (m.length + 64) 0x5c)) (sig ++ m) pk
     let buf := (o.m.getD []).take m.length
@@ -44,17 +56,22 @@ def handle (op : String) (args : List String) : Option String :=
     let f2 := if o.rc == 0 && (o.mlen != m.length || buf != m) then "OPEN-MSG-DIFFERS " else ""
     let f3 := if o.rc != 0 && o.mlen != 0 then "OPEN-FAIL-MLEN " else ""
     let f4 := if o.rc != 0 && buf.any (fun b => b != 0 && b != 0x5c) then "OPEN-FAIL-LEAK " else ""
-    some s!"{f1}{f2}{f3}{f4}{rcStr rc}"
+    some s!"{f0}{f1}{f2}{f3}{f4}{rcStr rc}"
   | "sign.open", [sm, pk] => do
     let sm ← ofHex sm; let pk ← ofHex pk
     let o := Model.Sign.crypto_sign_open ops (some (List.replicate sm.length 0x5c)) sm pk
     some s!"{rcStr o.rc} {o.mlen} {toHex ((o.m.getD []).take (sm.length - 64))}"
   | "sign.ph", "create" :: sk :: cs => do
     let sk ← ofHex sk; let cs ← cs.mapM ofHex
-    some (toHex (Model.Sign.ph_final_create ops cs.flatten sk).sig)
+    let ph := Model.Ed25519Full.crypto_hash_sha512 cs.flatten
+    let full := Model.Ed25519Full._crypto_sign_ed25519_detached ph sk true
+    some s!"{dis (full != (Model.Sign.ph_final_create ops cs.flatten sk).sig)}{toHex full}"
   | "sign.ph", "verify" :: sig :: pk :: cs => do
     let cs ← cs.mapM ofHex
-    some (rcStr (Model.Sign.ph_final_verify ops cs.flatten (← ofHex sig) (← ofHex pk)))
+    let sig ← ofHex sig; let pk ← ofHex pk
+    let ph := Model.Ed25519Full.crypto_hash_sha512 cs.flatten
+    let rc := Model.Ed25519Full._crypto_sign_ed25519_verify_detached sig ph pk true
+    some s!"{dis (rc != Model.Sign.ph_final_verify ops cs.flatten sig pk)}{rcStr rc}"
   | _, _ => none
 
 end Sodium.Driver.C06
